@@ -59,6 +59,8 @@ def gen_case(rng, tier, k):
     nmax = 6 if tier == "quick" else 7
     bnet = common.g_mixed(rng, nmax=nmax, p_core=0.35)
     st = rng.choice(STRATS)
+    if (st.startswith("scc") or st.startswith("block")) and rng.random() < 0.5:
+        bnet = common.g_modulated(rng)
     prefix = []
     if st in ("bfs", "dfs", "min", "aseeds") and rng.random() < 0.5:
         prefix = gen_ops(rng, rng.randint(1, 4), allow_skip=False, allow_unmodelled=False)
